@@ -119,6 +119,13 @@ def primary_cases():
                       src='dtn://other/')
         b['blocks'][-1]['data'] = B.enc_status_report(status, 0, 'dtn://elsewhere/app', (0, 9) if times[0] == 0 else (700000000001, 3), frag=frag)
         yield (lab, b)
+    # an administrative record in transit whose sender asked for reports (the repository's own ACME request does:
+    # flags 0x40022): the primary block is not the forwarder's to rewrite
+    for extra in (0x40000, 0x40020, 0x74000):
+        (lab, b) = mk(dict(primary='administrative record in transit with report-request flags %#x' % extra), flags=B.FLAG_ADMIN | extra,
+                      report_to='dtn:none', src='dtn://other/')
+        b['blocks'][-1]['data'] = C.dumps([7, [1, 'token']])
+        yield (lab, b)
     # administrative records of types this node has no class for, in transit, with "empty" and ordinary contents
     for content in ([], 0, '', False, {}, None, b'', [1, [2]], {4: 1, 1: 2}, 'text'):
         (lab, b) = mk(dict(primary='administrative record [7, %r] in transit' % (content,)), flags=B.FLAG_ADMIN, report_to='dtn:none', src='dtn://other/')
